@@ -135,40 +135,70 @@ Theorem iterator_use_after_free : it_uaf (run it_st (it_step false) it_witness i
 Proof. vm_compute. reflexivity. Qed.
 
 (* ------------------------------------------------------------------ 3. shutdown *)
+Lemma shc_bound : forall c t s, 4 <= t -> sh_step_cfg c t s = None.
+Proof. intros c t s H. unfold sh_step_cfg. do 4 (destruct t as [|t]; [lia|]). reflexivity. Qed.
 Lemma sh_bound : forall b t s, 4 <= t -> sh_step b t s = None.
-Proof. intros b t s H. unfold sh_step. do 4 (destruct t as [|t]; [lia|]). reflexivity. Qed.
+Proof. intros b t s H. unfold sh_step. apply shc_bound. exact H. Qed.
+Lemma sh3_bound : forall c t s, 3 <= t -> sh_step3 c t s = None.
+Proof. intros c t s H. unfold sh_step3. destruct (t <? 3) eqn:E; auto. apply Nat.ltb_lt in E. lia. Qed.
+Lemma sh12_bound : forall c t s, 3 <= t -> sh_step12 c t s = None.
+Proof. intros c t s H. unfold sh_step12. do 3 (destruct t as [|t]; [lia|]). reflexivity. Qed.
+
+(* the protocols: before 1b1aba3 / HEAD / HEAD with a failing select() / that with notes/fix_C13_4.diff *)
+Definition cfg_old : sh_cfg := mkCfg false true false false.
+Definition cfg_head : sh_cfg := mkCfg true true false false.
+Definition cfg_nojoin : sh_cfg := mkCfg true false false false.
+Definition cfg_selfail : sh_cfg := mkCfg true true true false.
+Definition cfg_selfail_fixed : sh_cfg := mkCfg true true true true.
+Lemma sh_step_is_head : sh_step true = sh_step_cfg cfg_head.
+Proof. reflexivity. Qed.
 
 Definition sh_reach (repaired : bool) : list sh_st :=
   explore sh_st sh_st_beq (sh_step repaired) 4 200000 [sh_init] [].
-
-Lemma sh_faithful_closed : closed sh_st sh_st_beq (sh_step false) 4 (sh_reach false) = true.
-Proof. vm_compute. reflexivity. Qed.
-Lemma sh_faithful_init : In sh_init (sh_reach false).
-Proof. apply (mem_in _ _ internal_sh_st_dec_bl). vm_compute. reflexivity. Qed.
-Lemma sh_faithful_gone : forallb sh_gone_ok (sh_reach false) = true.
-Proof. vm_compute. reflexivity. Qed.
-
-(* under every schedule of the four threads rfbClientConnectionGone runs at most once, and exactly
-   once by the time the client's input thread has ended *)
-Theorem gone_once_threaded : forall sched,
-  let s := run sh_st (sh_step false) sched sh_init in
-  sh_gone s <= 1 /\ (sh_pcI s = SH_IN_DONE -> sh_gone s = 1).
-Proof.
-  intros sched s.
-  assert (H := all_schedules sh_st sh_st_beq internal_sh_st_dec_bl (sh_step false) 4 (sh_bound false)
-                 (sh_reach false) sh_gone_ok sh_init sh_faithful_closed sh_faithful_init sh_faithful_gone sched).
-  fold s in H. unfold sh_gone_ok in H. apply andb_true_iff in H. destruct H as [H1 H2].
-  apply Nat.leb_le in H1. split; auto. intros E. rewrite E in H2. simpl in H2. apply Nat.eqb_eq in H2. exact H2.
-Qed.
 
 Lemma sh_repaired_closed : closed sh_st sh_st_beq (sh_step true) 4 (sh_reach true) = true.
 Proof. vm_compute. reflexivity. Qed.
 Lemma sh_repaired_init : In sh_init (sh_reach true).
 Proof. apply (mem_in _ _ internal_sh_st_dec_bl). vm_compute. reflexivity. Qed.
+Lemma sh_repaired_gone : forallb sh_gone_ok (sh_reach true) = true.
+Proof. vm_compute. reflexivity. Qed.
 Lemma sh_repaired_free : forallb (stuck_free sh_st (sh_step true) 4 sh_final) (sh_reach true) = true.
 Proof. vm_compute. reflexivity. Qed.
 
-(* repaired (clientOutput re-tests cl->state after taking updateMutex): whatever the schedule did so
+(* HEAD's protocol, one client: under every schedule of {application: rfbShutdownServer then rfbScreenCleanup,
+   clientInput, clientOutput, a second rfbCloseClient caller} the teardown (rfbClientConnectionGone: unlink, hook, free)
+   runs at most once; exactly once by the time the client's input thread has ended; and when the application's
+   rfbScreenCleanup - the competing caller, which tears down every client it still finds listed - is through, it has
+   run exactly once and the record is unlinked.  (What keeps rfbScreenCleanup from a second teardown is the join.) *)
+Theorem gone_once_threaded : forall sched,
+  let s := run sh_st (sh_step true) sched sh_init in
+  sh_gone s <= 1 /\ (sh_pcI s = SH_IN_DONE -> sh_gone s = 1) /\
+  (sh_pcA s = SH_APP_DONE -> sh_gone s = 1 /\ sh_inlist s = false).
+Proof.
+  intros sched s.
+  assert (H := all_schedules sh_st sh_st_beq internal_sh_st_dec_bl (sh_step true) 4 (sh_bound true)
+                 (sh_reach true) sh_gone_ok sh_init sh_repaired_closed sh_repaired_init sh_repaired_gone sched).
+  fold s in H. unfold sh_gone_ok in H. apply andb_true_iff in H. destruct H as [H H3].
+  apply andb_true_iff in H. destruct H as [H1 H2].
+  apply Nat.leb_le in H1. split; [exact H1|]. split.
+  - intros E. rewrite E in H2. simpl in H2. apply Nat.eqb_eq in H2. exact H2.
+  - intros E. rewrite E in H3. simpl in H3. apply andb_true_iff in H3. destruct H3 as [H3 H4].
+    apply Nat.eqb_eq in H3. apply negb_true_iff in H4. split; assumption.
+Qed.
+
+Lemma gone_once_nonvacuous :
+  let s := run sh_st (sh_step true) (concat (repeat [0;1;2;3] 12)) sh_init in
+  sh_pcA s = SH_APP_DONE /\ sh_pcI s = SH_IN_DONE /\ sh_gone s = 1.
+Proof. vm_compute. repeat split. Qed.
+
+(* the join is what the previous theorem rests on: an application that goes on to rfbScreenCleanup WITHOUT having joined
+   the client thread tears the client down a second time (not a finding: rfbShutdownServer(screen, TRUE) does join) *)
+Definition sh_nojoin_witness : list nat := [0;0;0;0;0;0; 2; 1;1;1;1;1;1].
+Theorem gone_twice_without_join :
+  sh_gone (run sh_st (sh_step_cfg cfg_nojoin) sh_nojoin_witness sh_init) = 2.
+Proof. vm_compute. reflexivity. Qed.
+
+(* HEAD's protocol (clientOutput re-tests cl->state after taking updateMutex): whatever the schedule did so
    far, the system is finished or some thread can still move - no deadlock *)
 Theorem shutdown_never_stuck_repaired : forall sched,
   let s := run sh_st (sh_step true) sched sh_init in
@@ -184,7 +214,7 @@ Proof.
   - unfold enabled. exact E.
 Qed.
 
-(* and from every reachable state of the repaired system a finite schedule finishes the shutdown *)
+(* and from every reachable state a finite schedule finishes the shutdown *)
 Definition sh_finishing : list nat := concat (repeat [0;1;2;3] 40).      (* round robin *)
 Lemma sh_repaired_can_finish :
   forallb (fun s => sh_final (run sh_st (sh_step true) sh_finishing s)) (sh_reach true) = true.
@@ -199,7 +229,33 @@ Proof.
            sh_repaired_closed sh_repaired_init sh_repaired_can_finish sched).
 Qed.
 
-(* faithful: clientOutput tests cl->state, is preempted, the application closes the client, the input
+(* the same WITHOUT the helping second closer: only rfbShutdownServer, clientInput and clientOutput run *)
+Definition sh3_reach : list sh_st := explore sh_st sh_st_beq (sh_step3 cfg_head) 3 200000 [sh_init] [].
+Definition sh3_finishing : list nat := concat (repeat [0;1;2] 40).
+Lemma sh3_closed : closed sh_st sh_st_beq (sh_step3 cfg_head) 3 sh3_reach = true.
+Proof. vm_compute. reflexivity. Qed.
+Lemma sh3_init : In sh_init sh3_reach.
+Proof. apply (mem_in _ _ internal_sh_st_dec_bl). vm_compute. reflexivity. Qed.
+Lemma sh3_good :
+  forallb (fun s => stuck_free sh_st (sh_step3 cfg_head) 3 sh_final3 s && sh_final3 (run sh_st (sh_step3 cfg_head) sh3_finishing s))
+          sh3_reach = true.
+Proof. vm_compute. reflexivity. Qed.
+Theorem shutdown_terminates_three_threads : forall sched,
+  let s := run sh_st (sh_step3 cfg_head) sched sh_init in
+  (sh_final3 s = true \/ exists t, t < 3 /\ enabled sh_st (sh_step3 cfg_head) t s = true) /\
+  sh_final3 (run sh_st (sh_step3 cfg_head) sh3_finishing s) = true.
+Proof.
+  intros sched s.
+  assert (H := all_schedules sh_st sh_st_beq internal_sh_st_dec_bl (sh_step3 cfg_head) 3 (sh3_bound cfg_head)
+                 sh3_reach _ sh_init sh3_closed sh3_init sh3_good sched).
+  cbv beta in H. fold s in H. apply andb_true_iff in H. destruct H as [H1 H2]. split; [|exact H2].
+  unfold stuck_free in H1. apply orb_true_iff in H1. destruct H1 as [H1|H1]; auto.
+  right. apply existsb_exists in H1. destruct H1 as [t [Ht E]]. exists t. split.
+  - apply in_seq in Ht. lia.
+  - unfold enabled. exact E.
+Qed.
+
+(* before 1b1aba3: clientOutput tests cl->state, is preempted, the application closes the client, the input
    thread signals (nobody waits yet) and joins the output thread, which now goes to sleep for ever *)
 Definition sh_witness : list nat := [2; 3;3;3;3; 0;0;0;0; 1;1;1;1; 2;2].
 Theorem shutdown_lost_wakeup :
@@ -208,6 +264,72 @@ Theorem shutdown_lost_wakeup :
 Proof.
   split; [vm_compute; reflexivity|].
   intros t. do 4 (destruct t as [|t]; [vm_compute; reflexivity|]). reflexivity.
+Qed.
+
+(* ---- select() fails in clientInput (EINTR).  HEAD: the loop is left without state = RFB_SHUTDOWN; the final signal
+   wakes an output thread that re-tests the state, finds nothing wrong and waits again; the input thread blocks in
+   THREAD_JOIN.  Neither of the client's threads can move any more; only an rfbCloseClient by somebody else
+   (rfbShutdownServer, another client's non-shared ClientInit) ends it. *)
+Definition sh_selfail_witness : list nat := [2;2;2; 1;1;1;1; 2;2;2; 2;2;2].
+Theorem input_leaves_loop_without_shutdown :
+  let s := run sh_st (sh_step_cfg cfg_selfail) sh_selfail_witness sh_init in
+  sh_shut s = false /\ sh_gone s = 0 /\ sh_pcI s = 4 /\ sh_wait s = true /\
+  enabled sh_st (sh_step_cfg cfg_selfail) 1 s = false /\ enabled sh_st (sh_step_cfg cfg_selfail) 2 s = false.
+Proof. vm_compute. repeat split. Qed.
+
+(* with notes/fix_C13_4.diff (clientInput closes the client itself when it leaves the loop with state != RFB_SHUTDOWN):
+   the client's two threads ALONE always finish, the teardown runs exactly once ... *)
+Definition sh12_reach : list sh_st := explore sh_st sh_st_beq (sh_step12 cfg_selfail_fixed) 3 200000 [sh_init] [].
+Definition sh12_finishing : list nat := concat (repeat [1;2] 40).
+Lemma sh12_closed : closed sh_st sh_st_beq (sh_step12 cfg_selfail_fixed) 3 sh12_reach = true.
+Proof. vm_compute. reflexivity. Qed.
+Lemma sh12_init : In sh_init sh12_reach.
+Proof. apply (mem_in _ _ internal_sh_st_dec_bl). vm_compute. reflexivity. Qed.
+Lemma sh12_good :
+  forallb (fun s => stuck_free sh_st (sh_step12 cfg_selfail_fixed) 3 sh_final12 s &&
+                    sh_final12 (run sh_st (sh_step12 cfg_selfail_fixed) sh12_finishing s)) sh12_reach = true.
+Proof. vm_compute. reflexivity. Qed.
+Theorem input_exit_fixed_client_threads_finish : forall sched,
+  let s := run sh_st (sh_step12 cfg_selfail_fixed) sched sh_init in
+  (sh_final12 s = true \/ exists t, t < 3 /\ enabled sh_st (sh_step12 cfg_selfail_fixed) t s = true) /\
+  sh_final12 (run sh_st (sh_step12 cfg_selfail_fixed) sh12_finishing s) = true.
+Proof.
+  intros sched s.
+  assert (H := all_schedules sh_st sh_st_beq internal_sh_st_dec_bl (sh_step12 cfg_selfail_fixed) 3 (sh12_bound cfg_selfail_fixed)
+                 sh12_reach _ sh_init sh12_closed sh12_init sh12_good sched).
+  cbv beta in H. fold s in H. apply andb_true_iff in H. destruct H as [H1 H2]. split; [|exact H2].
+  unfold stuck_free in H1. apply orb_true_iff in H1. destruct H1 as [H1|H1]; auto.
+  right. apply existsb_exists in H1. destruct H1 as [t [Ht E]]. exists t. split.
+  - apply in_seq in Ht. lia.
+  - unfold enabled. exact E.
+Qed.
+
+(* ... and together with rfbShutdownServer and a second closer: never stuck, always finishable, teardown once *)
+Definition shF_reach : list sh_st := explore sh_st sh_st_beq (sh_step_cfg cfg_selfail_fixed) 4 400000 [sh_init] [].
+Lemma shF_closed : closed sh_st sh_st_beq (sh_step_cfg cfg_selfail_fixed) 4 shF_reach = true.
+Proof. vm_compute. reflexivity. Qed.
+Lemma shF_init : In sh_init shF_reach.
+Proof. apply (mem_in _ _ internal_sh_st_dec_bl). vm_compute. reflexivity. Qed.
+Lemma shF_good :
+  forallb (fun s => stuck_free sh_st (sh_step_cfg cfg_selfail_fixed) 4 sh_final s &&
+                    sh_final (run sh_st (sh_step_cfg cfg_selfail_fixed) sh_finishing s) && sh_gone_ok s) shF_reach = true.
+Proof. vm_compute. reflexivity. Qed.
+Theorem input_exit_fixed_shutdown_terminates : forall sched,
+  let s := run sh_st (sh_step_cfg cfg_selfail_fixed) sched sh_init in
+  (sh_final s = true \/ exists t, t < 4 /\ enabled sh_st (sh_step_cfg cfg_selfail_fixed) t s = true) /\
+  sh_final (run sh_st (sh_step_cfg cfg_selfail_fixed) sh_finishing s) = true /\ sh_gone s <= 1.
+Proof.
+  intros sched s.
+  assert (H := all_schedules sh_st sh_st_beq internal_sh_st_dec_bl (sh_step_cfg cfg_selfail_fixed) 4 (shc_bound cfg_selfail_fixed)
+                 shF_reach _ sh_init shF_closed shF_init shF_good sched).
+  cbv beta in H. fold s in H. apply andb_true_iff in H. destruct H as [H H3]. apply andb_true_iff in H. destruct H as [H1 H2].
+  split; [|split; [exact H2|]].
+  - unfold stuck_free in H1. apply orb_true_iff in H1. destruct H1 as [H1|H1]; auto.
+    right. apply existsb_exists in H1. destruct H1 as [t [Ht E]]. exists t. split.
+    + apply in_seq in Ht. lia.
+    + unfold enabled. exact E.
+  - unfold sh_gone_ok in H3. apply andb_true_iff in H3. destruct H3 as [H3 _]. apply andb_true_iff in H3. destruct H3 as [H3 _].
+    apply Nat.leb_le in H3. exact H3.
 Qed.
 
 (* ------------------------------------------------------------------ 4. thread reclamation *)
@@ -372,6 +494,59 @@ Theorem shutdown_join_reads_freed_record :
   let s := run sj_st (sj_step false) sj_witness sj_init in sj_freed s = true /\ sj_uaf s = true.
 Proof. vm_compute. split; reflexivity. Qed.
 
+(* ------------------------------------------------------------------ 4e. rfbNewFramebuffer vs. a client that goes / arrives *)
+(* the peer of an idle client disconnects between the pass that locks every sendMutex and the pass that unlocks them:
+   the client is closed (skipped by the second iterator) and already unlinked; rfbNewFramebuffer returns still holding
+   its sendMutex; the client's own thread blocks for ever in rfbClientConnectionGone (LOCK(cl->sendMutex), rfbserver.c:669) *)
+Definition nf_gone_witness : list nat := [0;0;0; 1;1;1; 0;0; 1].
+Theorem newfb_leaves_sendmutex_locked :
+  let s := run nf_st (nf_step 0) nf_gone_witness (nf_init 0) in
+  nf_pcA s = NF_APP_DONE /\ nf_send s = 1 /\ nf_pcB s = 3 /\ nf_freed s = false /\ nf_ok s = false /\
+  forall t, enabled nf_st (nf_step 0) t s = false.
+Proof.
+  repeat split; try (vm_compute; reflexivity).
+  intros t. do 2 (destruct t as [|t]; [vm_compute; reflexivity|]). reflexivity.
+Qed.
+
+(* a connection accepted between the two passes gets an UNLOCK of a sendMutex nobody locked *)
+Definition nf_new_witness : list nat := [0;0; 1; 0;0].
+Theorem newfb_unlocks_unlocked_mutex :
+  nf_badunlock (run nf_st (nf_step 1) nf_new_witness (nf_init 1)) = true.
+Proof. vm_compute. reflexivity. Qed.
+
+(* what does hold, for every schedule: as long as the client neither goes nor arrives BETWEEN the two passes the bracket
+   is balanced - here: the client thread moves only after rfbNewFramebuffer has returned *)
+Lemma nf_bound : forall m t s, 2 <= t -> nf_step m t s = None.
+Proof. intros m t s H. unfold nf_step. do 2 (destruct t as [|t]; [lia|]). reflexivity. Qed.
+Definition nf_step_serial (m : nat) (t : nat) (s : nf_st) : option nf_st :=
+  match t with
+  | 0 => nf_step m 0 s
+  | 1 => if nf_pcA s =? NF_APP_DONE then nf_step m 1 s else None
+  | _ => None
+  end.
+Lemma nfs_bound : forall m t s, 2 <= t -> nf_step_serial m t s = None.
+Proof. intros m t s H. unfold nf_step_serial. do 2 (destruct t as [|t]; [lia|]). reflexivity. Qed.
+Definition nfs_reach (m : nat) : list nf_st := explore nf_st nf_st_beq (nf_step_serial m) 2 5000 [nf_init m] [].
+Lemma nfs_closed : forall m, m < 2 -> closed nf_st nf_st_beq (nf_step_serial m) 2 (nfs_reach m) = true.
+Proof. intros m H. do 2 (destruct m as [|m]; [vm_compute; reflexivity|]). exfalso; lia. Qed.
+Lemma nfs_init : forall m, m < 2 -> In (nf_init m) (nfs_reach m).
+Proof. intros m H. apply (mem_in _ _ internal_nf_st_dec_bl). do 2 (destruct m as [|m]; [vm_compute; reflexivity|]). exfalso; lia. Qed.
+Lemma nfs_ok : forall m, m < 2 -> forallb (fun s => nf_ok s && stuck_free nf_st (nf_step_serial m) 2 nf_final s) (nfs_reach m) = true.
+Proof. intros m H. do 2 (destruct m as [|m]; [vm_compute; reflexivity|]). exfalso; lia. Qed.
+Theorem newfb_balanced_when_serialised : forall m sched, m < 2 ->
+  let s := run nf_st (nf_step_serial m) sched (nf_init m) in
+  nf_ok s = true /\ (nf_final s = true \/ exists t, t < 2 /\ enabled nf_st (nf_step_serial m) t s = true).
+Proof.
+  intros m sched Hm s.
+  assert (H := all_schedules nf_st nf_st_beq internal_nf_st_dec_bl (nf_step_serial m) 2 (nfs_bound m)
+                 (nfs_reach m) _ (nf_init m) (nfs_closed m Hm) (nfs_init m Hm) (nfs_ok m Hm) sched).
+  cbv beta in H. fold s in H. apply andb_true_iff in H. destruct H as [H1 H2]. split; [exact H1|].
+  unfold stuck_free in H2. apply orb_true_iff in H2. destruct H2 as [H2|H2]; auto.
+  right. apply existsb_exists in H2. destruct H2 as [t [Ht E]]. exists t. split.
+  - apply in_seq in Ht. lia.
+  - unfold enabled. exact E.
+Qed.
+
 (* ------------------------------------------------------------------ 5. lock order *)
 Section LockOrder.
   Variable rank : nat -> nat.
@@ -439,45 +614,62 @@ Section LockOrder.
   Qed.
 End LockOrder.
 
-(* the acquisition pairs of the true-colour code paths respect the rank (= the numbering of the
-   mutex classes); the table with the colour-map path does not: updateMutex and sendMutex of the
-   same client are taken in both orders (and updateMutex twice by the same thread) *)
+(* the acquisition pairs of the true-colour code paths respect the rank (= the numbering of the mutexes), for ANY
+   number N of clients - a symbolic argument over the generated table, not an evaluation *)
+Lemma lock_table_n_ranked : forall N p, In p (lock_table_n N) -> fst p < snd p.
+Proof.
+  intros N [h m] H. unfold lock_table_n in H. rewrite !in_app_iff in H. destruct H as [H|[H|H]].
+  - apply in_flat_map in H. destruct H as [k [Hk H]]. apply in_seq in Hk.
+    unfold pairs_client, P_send, P_cursor, P_upd, P_list, P_ref, P_out in H.
+    repeat (destruct H as [H|H]; [inversion H; subst; cbn [fst snd]; lia|]). destruct H.
+  - apply in_flat_map in H. destruct H as [j [Hj H]]. apply in_flat_map in H. destruct H as [k [Hk H]].
+    apply in_seq in Hj. apply in_seq in Hk. unfold pairs_cross in H. apply in_app_iff in H. destruct H as [H|H].
+    + destruct (j <? k) eqn:E; [|destruct H]. apply Nat.ltb_lt in E. destruct H as [H|[]].
+      inversion H; subst. unfold P_send. cbn [fst snd]. lia.
+    + destruct (j =? k) eqn:E; [destruct H|]. unfold P_send, P_ref, P_upd in H.
+      destruct H as [H|[H|[]]]; inversion H; subst; cbn [fst snd]; lia.
+  - destruct H as [H|[]]. inversion H; subst. unfold P_cursor, P_list. cbn [fst snd]. lia.
+Qed.
+
 Lemma table_respects_rank : respects_rank lock_table = true.
 Proof. vm_compute. reflexivity. Qed.
 
+(* the table with the colour-map paths does not: updateMutex and sendMutex of the same client are taken in both orders,
+   updateMutex twice and sendMutex twice by the same thread *)
 Lemma palette_table_inversion :
-  In (M_send 0, M_upd 0) lock_table_palette /\ In (M_upd 0, M_send 0) lock_table_palette /\
-  In (M_upd 0, M_upd 0) lock_table_palette.
-Proof. repeat split; simpl; tauto. Qed.
+  In (P_send 3 0, P_upd 3 0) lock_table_palette /\ In (P_upd 3 0, P_send 3 0) lock_table_palette /\
+  In (P_upd 3 0, P_upd 3 0) lock_table_palette /\ In (P_send 3 0, P_send 3 0) lock_table_palette.
+Proof. vm_compute. tauto. Qed.
 
 (* a thread that holds h and asks for m, for a pair (h, m) of a rank-respecting table, is disciplined *)
-Lemma table_thread_disciplined : forall tbl t,
-  respects_rank tbl = true ->
+Lemma table_thread_disciplined : forall (tbl : list (nat * nat)) t,
+  (forall p, In p tbl -> fst p < snd p) ->
   (forall m, want t = Some m -> forall h, In h (held t) -> In (h, m) tbl) ->
   disciplined (fun x => x) t.
 Proof.
   intros tbl t HR HT. unfold disciplined. destruct (want t) as [m|] eqn:E; auto.
-  intros h Hh. unfold respects_rank in HR. rewrite forallb_forall in HR.
-  specialize (HR (h, m) (HT m eq_refl h Hh)). simpl in HR. apply Nat.ltb_lt in HR. exact HR.
+  intros h Hh. exact (HR (h, m) (HT m eq_refl h Hh)).
 Qed.
 
-Theorem lock_order_acyclic : forall a l,
-  (forall t, In t (a :: l) -> forall m, want t = Some m -> forall h, In h (held t) -> In (h, m) lock_table) ->
+(* N clients, any number of threads: *)
+Theorem lock_order_acyclic : forall N a l,
+  (forall t, In t (a :: l) -> forall m, want t = Some m -> forall h, In h (held t) -> In (h, m) (lock_table_n N)) ->
   chain (a :: l) -> waits_for (last (a :: l) a) a -> False.
 Proof.
-  intros a l HT. apply (no_deadlock_cycle (fun x => x)).
-  intros t Ht. apply (table_thread_disciplined lock_table t table_respects_rank). intros m E h Hh.
+  intros N a l HT. apply (no_deadlock_cycle (fun x => x)).
+  intros t Ht. apply (table_thread_disciplined (lock_table_n N) t (lock_table_n_ranked N)). intros m E h Hh.
   apply (HT t Ht m E h Hh).
 Qed.
 
+(* non-vacuity with a THIRD client's mutexes (N = 3, client 2) *)
 Example lock_order_nonvacuous :
-  let t1 := mkThr [M_send 0] (Some (M_upd 0)) in
-  let t2 := mkThr [M_upd 0] None in
-  (forall t, In t [t1; t2] -> forall m, want t = Some m -> forall h, In h (held t) -> In (h, m) lock_table) /\
+  let t1 := mkThr [P_send 3 2] (Some (P_upd 3 2)) in
+  let t2 := mkThr [P_upd 3 2] None in
+  (forall t, In t [t1; t2] -> forall m, want t = Some m -> forall h, In h (held t) -> In (h, m) (lock_table_n 3)) /\
   chain [t1; t2].
 Proof.
   split.
   - intros t [<-|[<-|[]]] m E h Hh; simpl in *; try discriminate.
-    inversion E; subst. destruct Hh as [<-|[]]. left. reflexivity.
-  - simpl. split; auto. exists (M_upd 0). simpl. auto.
+    inversion E; subst. destruct Hh as [<-|[]]. vm_compute. tauto.
+  - simpl. split; auto. exists (P_upd 3 2). simpl. auto.
 Qed.
